@@ -360,3 +360,91 @@ def rule_uniq2(ctx: Ctx) -> RuleResult:
           f"e.g. the keys \"café\" and \"cafe\" (or \"größe\" and \"grosse\") give two classes with the same name, the second "
           f"shadowing the first", entry.node.lineno)
     return rr
+
+
+# ---------------------------------------------------------------------------------------------------------------
+def _pl(ctx: Ctx) -> FuncInfo:
+    return ctx.prog.func(BASE, "prepare_label")
+
+
+def rule_label2(ctx: Ctx) -> RuleResult:
+    """LABEL-2..4: the label is what Python will actually bind (NFKC), is not private (no leading underscore), is not empty."""
+    rr = RuleResult("LABEL-2..4", "labels are normalised identifiers, never private, never empty", floor=3)
+    f = _pl(ctx)
+    mod = f.module
+    s = f.params[0]
+    nodes = list(walk_no_nested(f.node))
+    # ---- LABEL-2: NFKC on the path that does not transliterate
+    rr.instances += 1
+    translit = [n for n in nodes if isinstance(n, ast.Call) and norm(n.func).split(".")[-1] == "unidecode"]
+    nfkc = [n for n in nodes if isinstance(n, ast.Call) and norm(n.func).split(".")[-1] == "normalize" and n.args
+            and isinstance(n.args[0], ast.Constant) and n.args[0].value == "NFKC"]
+    ok = False
+    why = "no unicodedata.normalize('NFKC', ...) in prepare_label"
+    if nfkc:
+        n0 = nfkc[0]
+        # unconditional, or in the branch where transliteration is off
+        par = mod.parents.get(n0)
+        conds = []
+        cur = n0
+        while par is not None and par is not f.node:
+            if isinstance(par, ast.If):
+                conds.append((norm(par.test), any(cur is x or any(cur is y for y in ast.walk(x)) for x in par.body)))
+            cur, par = par, mod.parents.get(par)
+        ok = not conds or all((c == "convert_unicode" and not in_body) or (c == "not convert_unicode" and in_body) for c, in_body in conds)
+        why = "" if ok else f"the normalisation is conditional on {conds}"
+    elif not translit:
+        why = "neither transliteration nor normalisation"
+    rr.ob(f.relpath, f.qualname, norm(nfkc[0])[:60] if nfkc else "prepare_label", "when the key is not transliterated, the label is "
+          "NFKC-normalised: Python normalises identifiers when it compiles the class, but not the strings that refer to the "
+          "field (alias comparison, convert_strings([...]) paths), so `µ` (U+00B5) would name an attribute `μ` (U+03BC)",
+          DISCHARGED if ok else VIOLATED, "normalised on the non-transliterating path" if ok else why, f.node.lineno)
+    # ---- LABEL-4: the label is never empty when its first character is inspected, and an empty one is replaced
+    rr.instances += 1
+    subs = [n for n in nodes if isinstance(n, ast.Subscript) and isinstance(n.value, ast.Name) and n.value.id == s
+            and isinstance(n.slice, ast.Constant) and n.slice.value == 0]
+    unguarded = []
+    for sb in subs:
+        guarded = False
+        cur, par = sb, mod.parents.get(sb)
+        while par is not None and par is not f.node:
+            if isinstance(par, ast.BoolOp) and isinstance(par.op, ast.And):
+                idx = next((i for i, v in enumerate(par.values) if v is cur or any(cur is y for y in ast.walk(v))), None)
+                if idx and any(norm(v) in (s, f"len({s})", f"len({s}) > 0", f"{s} != ''") for v in par.values[:idx]):
+                    guarded = True
+            if isinstance(par, ast.If) and any(cur is x or any(cur is y for y in ast.walk(x)) for x in par.body):
+                tests = [par.test] + (list(par.test.values) if isinstance(par.test, ast.BoolOp) and isinstance(par.test.op, ast.And) else [])
+                if any(norm(t) in (s, f"len({s})", f"len({s}) > 0", f"{s} != ''") for t in tests):
+                    guarded = True
+            cur, par = par, mod.parents.get(par)
+        if not guarded:
+            unguarded.append(sb)
+    fallback = any(isinstance(n, ast.If) and isinstance(n.test, ast.UnaryOp) and isinstance(n.test.op, ast.Not) and s in
+                   {x.id for x in ast.walk(n.test) if isinstance(x, ast.Name)} and any(
+        isinstance(b, ast.Assign) and norm(b.targets[0]) == s and any(isinstance(c, ast.Constant) and isinstance(c.value, str)
+                                                                        and c.value.isidentifier() for c in ast.walk(b.value))
+        for b in n.body) for n in nodes)
+    ok = not unguarded and fallback
+    rr.ob(f.relpath, f.qualname, norm(unguarded[0]) if unguarded else f"{s}[0]", "a key without any letter or digit (\"\", \"-\", "
+          "\"_\") still gets a name: the first character is looked at only when there is one, and an empty label is replaced",
+          DISCHARGED if ok else VIOLATED,
+          "guarded and replaced" if ok else
+          (f"`{norm(unguarded[0])}` is evaluated although re.sub may have left nothing: IndexError for the keys \"\" and \"-\""
+           if unguarded else "an empty label is not replaced by a name"), (unguarded[0].lineno if unguarded else f.node.lineno))
+    # ---- LABEL-3: no leading underscore
+    rr.instances += 1
+    moves = [n for n in nodes if isinstance(n, ast.Call) and isinstance(n.func, ast.Attribute) and n.func.attr in ("lstrip", "strip")
+             and n.args and isinstance(n.args[0], ast.Constant) and n.args[0].value == "_" and norm(n.func.value) == s]
+    loops = [n for n in nodes if isinstance(n, ast.While) and f"{s}.startswith('_')" in norm(n.test)]
+    # the step must come after the last producer of a leading underscore (the digit rewrite)
+    digit = [n for n in nodes if isinstance(n, ast.Assign) and norm(n.targets[0]) == s and "ones[" in norm(n.value)]
+    after = [m for m in moves + loops if not digit or m.lineno > max(d.lineno for d in digit)]
+    ok = bool(after)
+    rr.ob(f.relpath, f.qualname, norm(mod.parents.get(after[0]))[:60] if after else "prepare_label",
+          "a label never starts with an underscore (pydantic drops such a field silently as a private attribute, attrs "
+          "renames its constructor argument): leading underscores, including the one the rewrite of a leading `0` produces, "
+          "are removed or moved", DISCHARGED if ok else VIOLATED,
+          "leading underscores are taken off after the digit rewrite" if ok else
+          "nothing removes a leading underscore: the key \"_x\" gives the pydantic field `_x`, which pydantic ignores (the "
+          "value is dropped), and \"0abc\" gives `_abc`", f.node.lineno)
+    return rr
